@@ -38,7 +38,16 @@ def step_digest(obs, reward, game, norm_state):
             h = ag.history[-1]
             agents[name] = [h.action, canon(norm_state(h.parameters)), h.response.status, canon(norm_state(h.response.data)),
                             None if h.reward is None else round(float(h.reward), 9)]
-    return {"obs": canon(obs), "reward": round(float(reward), 9), "agents": agents}
+    out = {"obs": canon(obs), "reward": round(float(reward), 9), "agents": agents}
+    # the action mask a masking-enabled learning agent would be given now (part of what the environment tells a policy)
+    for name in getattr(game, "rl_agents", {}):
+        ag = game.agents.get(name)
+        if ag is not None and getattr(ag.config.agent_settings, "action_masking", False):
+            try:
+                out.setdefault("masks", {})[name] = [int(x) for x in game.action_mask(name)]
+            except Exception as e:
+                out.setdefault("masks", {})[name] = f"raised {type(e).__name__}"
+    return out
 
 
 def run_one(case, variant):
